@@ -265,8 +265,9 @@ def configs(tier):
     scheds = _schedules(3, 2)
     for s in scheds:
         add("spot", scenario="interleave", schedule=s, **inter)
+    for s in scheds:
+        add("future", scenario="interleave", schedule=s, **inter)     # margined: per-broker marking state
     for s in scheds[::3]:
-        add("future", scenario="interleave", schedule=s, **inter)
         add("chain", scenario="interleave", schedule=s, **inter)
         add("feature", scenario="interleave", schedule=s, **inter)
     for scen in ("repeat", "abandon", "fresh", "stale-clock"):
